@@ -258,7 +258,7 @@ class Check:
         res, model = solve(assume + [neg] + outside, timeout, stats=s.stats)
         rec = {}
         if s.tier == 'thorough' and res in ('sat', 'unsat'):
-            so = second_opinion(assume + [neg] + outside, res, timeout)
+            so = second_opinion(assume + [neg] + outside, res, min(timeout, 30))     # a cross-check, not the deciding query: capped
             rec['second_solver'] = {True: 'agrees', False: 'DISAGREES', None: 'unknown'}[so]
             if so is False:
                 s.engine_errors.append(name + ': solvers disagree')
